@@ -422,6 +422,9 @@ pub trait MapValidBasic<T: IsNone>: TrustedLen<Item = T> + Sized {
             }
             bins.titer().map(IsNone::unwrap).collect_trusted_vec1()
         };
+        // the edges added by `add_bounds` stand for -inf and +inf: the first bin has no
+        // lower bound and the last bin has no upper bound
+        let n_labels = labels.len();
         if right {
             Ok(Box::new(self.map(move |value| {
                 if value.is_none() {
@@ -429,12 +432,15 @@ pub trait MapValidBasic<T: IsNone>: TrustedLen<Item = T> + Sized {
                 } else {
                     let value = value.unwrap();
                     let mut out = None;
-                    for (bound, label) in bins
+                    for (i, (bound, label)) in bins
                         .titer()
                         .tuple_windows::<(T::Inner, T::Inner)>()
                         .zip(labels.titer())
+                        .enumerate()
                     {
-                        if (bound.0 < value) && (value <= bound.1) {
+                        let above = (add_bounds && i == 0) || bound.0 < value;
+                        let below = (add_bounds && i + 1 == n_labels) || value <= bound.1;
+                        if above && below {
                             out = Some(label.clone());
                             break;
                         }
@@ -449,12 +455,15 @@ pub trait MapValidBasic<T: IsNone>: TrustedLen<Item = T> + Sized {
                 } else {
                     let value = value.unwrap();
                     let mut out = None;
-                    for (bound, label) in bins
+                    for (i, (bound, label)) in bins
                         .titer()
                         .tuple_windows::<(T::Inner, T::Inner)>()
                         .zip(labels.titer())
+                        .enumerate()
                     {
-                        if (bound.0 <= value) && (value < bound.1) {
+                        let above = (add_bounds && i == 0) || bound.0 <= value;
+                        let below = (add_bounds && i + 1 == n_labels) || value < bound.1;
+                        if above && below {
                             out = Some(label.clone());
                             break;
                         }
